@@ -84,9 +84,15 @@ def raise_containment(rep, prop="C06"):
         if handled:
             ob.status, ob.detail = PROVED, "raised inside a try whose handler catches it"
         else:
-            ob.status, ob.detail = REFUTED, f"`raise {txt}` in {fn} has no enclosing handler in its function and its callers return errors as values (no try/except on the call path)"
-            ob.witness = {"kind": "call", "qualname": "pyvc.boundedchecks:enum_values", "args": [], "kwargs": {"case": ["a", "A"]},
-                          "violates": "result is not None and 'raised' in result"} if fn == "values_from_list" else None
+            if fn == "values_from_list":
+                ob.status = REFUTED
+                ob.detail = f"`raise {txt}` in {fn} has no enclosing handler in its function and its callers return errors as values"
+                ob.witness = {"kind": "call", "qualname": "pyvc.boundedchecks:enum_values", "args": [], "kwargs": {"case": ["a", "A"]},
+                              "violates": "result is not None and 'raised' in result"}
+            else:
+                ob.status = UNDECIDED
+                ob.detail = (f"`raise {txt}` in {fn} has no enclosing handler in its own function; whether every call path from "
+                             f"generate() catches it needs a call-path contract that is not written")
         out.append(ob)
     return out
 
